@@ -14,13 +14,21 @@ theorem asListArg (v : RVal) (pos : Pos) : NoHost (asListArg v pos) := by
   unfold Ckl.asListArg; have := fun c => collAsList c; nohost!
 theorem asSetArg (v : RVal) (pos : Pos) : NoHost (asSetArg v pos) := by
   unfold Ckl.asSetArg; nohost!
+theorem dateResM (r : DateRes) (pos : Pos) : NoHost (dateResM r pos) := by
+  unfold Ckl.dateResM; nohost!
+theorem callDate (name : String) (args : List (String × RVal)) (pos : Pos) (m : EvalM RVal)
+    (h : callDate name args pos = some m) : NoHost m := by
+  unfold Ckl.callDate at h
+  split at h <;> first | (injection h with h; subst h; exact dateResM _ _) | (cases h)
 theorem nativeAdd (a b : RVal) (pos : Pos) : NoHost (nativeAdd a b pos) := by
   unfold Ckl.nativeAdd
+  have := fun r p => dateResM r p
   have := fun c => collAsList c
   have := fun x p w => floatResult x p w
   nohost!
 theorem nativeSub (a b : RVal) (pos : Pos) : NoHost (nativeSub a b pos) := by
   unfold Ckl.nativeSub
+  have := fun r p => dateResM r p
   have := fun c => collAsList c
   have := fun x p w => floatResult x p w
   nohost!
@@ -55,5 +63,5 @@ theorem NoHost.callPure (name : String) (args : List (String × RVal)) (div0 : O
   have := fun a => NoHost.listItems a
   unfold Ckl.callPure at h
   dsimp only at h
-  split at h <;> first | (injection h with h; subst h; nohost!) | (cases h)
+  split at h <;> first | (injection h with h; subst h; nohost!) | (exact NoHost.callDate _ _ _ _ h) | (cases h)
 end Ckl
